@@ -57,7 +57,9 @@ class C10(Prop):
                   "for concurrent schedules outside the open class C10-rebase-straddle (only sequential: C10_absolute_conservation); "
                   "(iii) idle-once for all schedules from an arbitrary no-more-updates configuration (proved from quiescent "
                   "configurations; a non-quiescent one reaches quiescence after the first flush begun afterwards completes - argued, "
-                  "not proved). A first absolute racing a flush or another first absolute is the open finding C10-rebase-straddle. The "
+                  "not proved). A first absolute racing a flush or another first absolute is the open finding C10-rebase-straddle. Histogram record racing a flush is only covered by the free-running stress (no value twice, none fabricated, "
+                  "never-sent values within recorders x drains = open finding C10-record-vs-flush-late-claim inherited from C05); the "
+                  "model's histogram is a sequential bag. The "
                   "payload parser of vlib/c10.py is trusted for the spec verdict on outputs that differ from the model.")
     rule = ("60% sequential histories: 1-4 keys (names incl. the telemetry prefix, 0-2 labels, bare tags), all configurations "
             "(mode, distributions, sampling with per-window pushes <= reservoir, prefix, global labels, max payload 128..8192 (every single-value line fits) and "
@@ -226,9 +228,9 @@ class C10(Prop):
         Judged on the parsed payloads: no value twice, no fabricated value, and values never sent at most
         recorders x (iterations begun while recording) - that much is the open C05 finding (a push landing in a block
         a concurrent clear_with has just detached) surfacing through AtomicHistogram::flush; anything above is a violation."""
-        confs = [(3, 300000, 2, 0, 5000, 700), (2, 250000, 1, 1, 5000, 700), (3, 150000, 2, 1, 4000, 1000)]
+        confs = [(3, 300000, 2, 0, 5000, 700), (2, 400000, 1, 1, 5000, 300), (3, 300000, 1, 1, 4000, 400)]
         if big:
-            confs += [(3, 400000, 1, 0, 6000, 500), (3, 300000, 2, 1, 5000, 700), (2, 400000, 2, 0, 5000, 500)]
+            confs += [(3, 400000, 1, 0, 6000, 500), (3, 300000, 2, 1, 5000, 700), (2, 250000, 1, 1, 5000, 700)]
         lines = ["Y %d %d %d %d %d %d" % c for c in confs]
         rc, outs, err = core.run_impl(ctx["binpath"], lines, timeout=300)
         if rc != 0 or len(outs) != len(lines):
